@@ -670,6 +670,82 @@ func base(name string, body []byte) *Program {
 		Entry: "call", To: CA, Input: []byte{9, 8, 7, 6}, Value: big.NewInt(0), Gas: 400_000}
 }
 
+// MemGrow: one memory-expanding instruction per program with a window of 64 KiB, 1 MiB or 4 MiB, for every instruction that can
+// expand memory (loads, stores, hashing, copies, logs, halts with data, creations, calls of every kind with and without value to
+// accounts with code, without code, never seen, and precompiles), at a gas limit far below and one above the expansion price.
+func MemGrow() []*Program {
+	var out []*Program
+	fresh := common.HexToAddress("0x00000000000000000000000000000000000f0006")
+	sizes := []uint64{1 << 16, 1 << 20, 1 << 22}
+	add := func(name string, body []byte) {
+		for _, gas := range []uint64{300_000, 40_000_000} {
+			p := base(name, body)
+			p.Gas = gas
+			p.Balances[CA] = big.NewInt(1000)
+			out = append(out, p)
+		}
+	}
+	for _, sz := range sizes {
+		one := map[string]func(c *code){
+			"mload":        func(c *code) { c.pushN(sz).op(0x51, 0x50) },
+			"mstore":       func(c *code) { c.pushN(1).pushN(sz).op(0x52) },
+			"mstore8":      func(c *code) { c.pushN(1).pushN(sz).op(0x53) },
+			"keccak":       func(c *code) { c.pushN(sz).pushN(0).op(0x20, 0x50) },
+			"calldatacopy": func(c *code) { c.pushN(sz).pushN(0).pushN(0).op(0x37) },
+			"codecopy":     func(c *code) { c.pushN(sz).pushN(0).pushN(0).op(0x39) },
+			"extcodecopy":  func(c *code) { c.pushN(sz).pushN(0).pushN(0).pushAddr(CB).op(0x3c) },
+			"mcopy":        func(c *code) { c.pushN(sz).pushN(0).pushN(32).op(0x5e) },
+			"log0":         func(c *code) { c.pushN(sz).pushN(0).op(0xa0) },
+			"log2":         func(c *code) { c.pushN(1).pushN(2).pushN(sz).pushN(0).op(0xa2) },
+			"return":       func(c *code) { c.pushN(sz).pushN(0).op(0xf3) },
+			"revert":       func(c *code) { c.pushN(sz).pushN(0).op(0xfd) },
+			"create":       func(c *code) { c.pushN(sz).pushN(0).pushN(0).op(0xf0, 0x50) },
+			"create-v1":    func(c *code) { c.pushN(sz).pushN(0).pushN(1).op(0xf0, 0x50) },
+			"create2":      func(c *code) { c.pushN(9).pushN(sz).pushN(0).pushN(0).op(0xf5, 0x50) },
+		}
+		names := make([]string, 0, len(one))
+		for k := range one {
+			names = append(names, k)
+		}
+		sortStrings(names)
+		for _, k := range names {
+			c := &code{}
+			one[k](c)
+			c.op(0x00)
+			p0 := len(out)
+			add(fmt.Sprintf("memgrow:%s-%d", k, sz), c.b)
+			if k == "mcopy" { // keep the Cancun byte: Sanitize removed it
+				for _, p := range out[p0:] {
+					p.Contracts[CA] = c.b
+				}
+			}
+		}
+		for _, kind := range []byte{0xf1, 0xf2, 0xf4, 0xfa} {
+			for _, val := range []uint64{0, 1} {
+				if val == 1 && kind != 0xf1 && kind != 0xf2 {
+					continue
+				}
+				for ti, tgt := range []common.Address{CB, NX, fresh, common.BytesToAddress([]byte{4}), common.BytesToAddress([]byte{0x66}), common.BytesToAddress([]byte{0x64})} {
+					for _, win := range []string{"in", "out"} {
+						c := &code{}
+						if win == "in" {
+							c.pushN(0).pushN(0).pushN(sz).pushN(0)
+						} else {
+							c.pushN(sz).pushN(0).pushN(0).pushN(0)
+						}
+						if kind == 0xf1 || kind == 0xf2 {
+							c.pushN(val)
+						}
+						c.pushAddr(tgt).op(0x5a, kind, 0x50, 0x00)
+						add(fmt.Sprintf("memgrow:call%x-v%d-t%d-%s-%d", kind, val, ti, win, sz), c.b)
+					}
+				}
+			}
+		}
+	}
+	return out
+}
+
 // pairPrograms: every "state-setting" action followed by every "observing" action, so that state that one instruction
 // leaves behind for another (return-data buffer, touched/created accounts, warm sets, memory size, refunds) is enumerated
 // systematically instead of waiting for the random generator to line the two up.
